@@ -625,6 +625,64 @@ func Run(r *fw.Run) {
 		})
 	}
 
+	// quoted values: every value of up to 3 pieces (c02.ValuePieces: letters of 1-3 bytes, an invalid byte,
+	// white space, every character or pair the lexer gives a meaning to, backslash) as an interpreted and as
+	// a raw string in the places where a directive carries a value
+	{
+		var vals []string
+		var rec func(cur string, n int)
+		rec = func(cur string, n int) {
+			if n > 0 {
+				vals = append(vals, cur)
+			}
+			if n == 3 {
+				return
+			}
+			for _, p := range c02.ValuePieces {
+				rec(cur+p, n+1)
+			}
+		}
+		rec("", 0)
+		vslots := [][3]string{
+			{"module example.com/m\n\nreplace a.com/x => ", "../", " // c\n"},
+			{"module ", "example.com/", "\n"},
+			{"module example.com/m\n\nrequire (\n\t", "a.com/", " v1.0.0\n)\n"},
+			{"module example.com/m\n\nrequire a.com/x ", "v1.0.0-", "\n"},
+			{"go 1.21\n\nuse (\n\t", "./", "\n)\n"},
+			{"module example.com/m\n\ngodebug ", "k=", "\n"},
+		}
+		r.Bounds["quoted_value_sweep"] = fmt.Sprintf("%d values (<= 3 pieces of %d) x %d places x {interpreted, raw} string", len(vals), len(c02.ValuePieces), len(vslots))
+		var mu sync.Mutex
+		fw.Parallel(16, func(sh int) {
+			l := fw.NewLocal()
+			defer r.Merge(l)
+			for i := sh; i < len(vals); i += 16 {
+				for _, sl := range vslots {
+					v := sl[1] + vals[i]
+					forms := []string{strconv.Quote(v)}
+					if !strings.ContainsAny(v, "`\n") {
+						forms = append(forms, "`"+v+"`")
+					}
+					for _, q := range forms {
+						b := []byte(sl[0] + q + sl[2])
+						l.States++
+						l.Transitions++
+						l.Execs += 5
+						res := oneInput(b)
+						if res.synOK {
+							l.Nontrivial++
+						}
+						if res.msg != "" {
+							mu.Lock()
+							report("values", b, res)
+							mu.Unlock()
+						}
+					}
+				}
+			}
+		})
+	}
+
 	// directives that are syntactically fine and refused for what they say (every verb, as a single line and
 	// inside a block, after some other statements so that the right position is not 1:1): every error must
 	// carry a position that agrees with the input
